@@ -7731,6 +7731,7 @@ impl<'a> Parser<'a> {
     fn parse_data_type_helper(
         &mut self,
     ) -> Result<(DataType, MatchedTrailingBracket), ParserError> {
+        let _guard = self.recursion_counter.try_decrease()?;
         let next_token = self.next_token();
         let mut trailing_bracket: MatchedTrailingBracket = false.into();
         let mut data = match next_token.token {
